@@ -40,9 +40,9 @@ TRACE = 'PeerMessaging/PeerMessagingTrace.tla'
 MODELS = {
     'MC_reuse.cfg': (['Invoke', 'MOpen', 'Connected', 'MEstOut', 'MEstIn', 'MAdopt', 'MWrite', 'MReturn'], 20000, 30, 250, 30),
     'MC_reuse_close.cfg': (['Invoke', 'MEstIn', 'MLocalClose', 'Closed', 'MSkip', 'MReturn'], 20000, 40, 300, 30),
-    'MC_fail.cfg': (['MBreak', 'NoticeEnd', 'MWrite', 'MWriteFail', 'MErrClose', 'MSkip', 'MLocalClose', 'MReturn'], 20000, 70, 600, 34),
+    'MC_fail.cfg': (['MBreak', 'NoticeEnd', 'MWrite', 'MWriteFail', 'MErrClose', 'MSkip', 'MLocalClose', 'MReturn'], 20000, 50, 600, 34),
     'MC_refuse.cfg': (['MOpenFail', 'MConnFail', 'MPierce', 'MAdopt', 'MReturn'], 20000, 20, 120, 30),
-    'MC_bp.cfg': (['MBlock', 'Unblock', 'MFlush', 'WriteTimeout', 'MTick', 'MWrite', 'MReturn'], 5000, 50, 500, 40),
+    'MC_bp.cfg': (['MBlock', 'Unblock', 'MFlush', 'WriteTimeout', 'MTick', 'MWrite', 'MReturn'], 5000, 40, 500, 40),
     'MC_idle.cfg': (['ReadTimeout', 'MPeerSend', 'MDeliver', 'MTick', 'MWrite'], 20000, 40, 400, 40),
     'MC_queue.cfg': (['MEnqueue', 'MQDone', 'MLocalClose', 'MBlock', 'Unblock', 'MWrite', 'MSkip'], 5000, 40, 400, 34),
     'MC_server.cfg': (['Invoke', 'ReadTimeout', 'MBreak', 'NoticeEnd', 'MDeliver', 'MWrite', 'MSkip'], 200000, 30, 250, 34),
@@ -54,7 +54,7 @@ THOROUGH_MODELS = {
     'MC_big_fail.cfg': ['MBreak', 'MWriteFail', 'MErrClose', 'MOpenFail', 'MConnFail', 'MPierce', 'MSkip'],
     'MC_big_time.cfg': ['MBlock', 'Unblock', 'WriteTimeout', 'ReadTimeout', 'MDeliver', 'MTick'],
 }
-SIM_BIG = ('MC_sim.cfg', 5000, 70, 1500, 50)        # unit ms, quick n, thorough n, depth
+SIM_BIG = ('MC_sim.cfg', 5000, 55, 1500, 50)        # unit ms, quick n, thorough n, depth
 COVER = {'MC_refuse.cfg': (30, None), 'MC_server_down.cfg': (10, None), 'MC_queue.cfg': (0, 400), 'MC_idle.cfg': (0, 400)}
 TEETH = {     # the position of the code: one of the named properties must be reported violated
     'MC_code_skip.cfg': {'TruthfulResults', 'RaiseIffFailed'},
